@@ -35,12 +35,15 @@ ExportSeqs ==
                   declaration 2 under an alias: the alias belongs to declaration 2 only.
    "stdlibname" - module 2 is called like a module of the standard library (sub/logging.py) and some package __init__ does 'import logging'
                   (export target 0 = that standard-library module): nothing of the package is re-exported.
-   "exccls"     - class 1 derives from Exception. *)
-Variants == {"distinct", "samename", "suffix", "samemodule", "initdecl", "sharedbase", "suffixalias", "stdlibname", "exccls"}
+   "exccls"     - class 1 derives from Exception.
+   "pkgmodreexp" - declaration 1 is written into the package file sub/deep/__init__.py, declaration 2 into sub/__init__.py, which also
+                  re-exports the package deep as a module ('from . import deep'). *)
+Variants == {"distinct", "samename", "suffix", "samemodule", "initdecl", "sharedbase", "suffixalias", "stdlibname", "exccls", "pkgmodreexp"}
 Universe == { [kind |-> k, exports |-> e, variant |-> "distinct"] : k \in Kinds, e \in ExportSeqs }
              \cup { [kind |-> k, exports |-> << Exp(a, 1, x) >>, variant |-> v] : k \in Kinds, a \in {0, 1, 2}, x \in {"", "AliasA"}, v \in {"samename", "suffix"} }
              \cup { [kind |-> k, exports |-> << Exp(a, 1, "") >>, variant |-> "samemodule"] : k \in Kinds, a \in {0, 1, 3} }
              \cup { [kind |-> k, exports |-> << >>, variant |-> "initdecl"] : k \in Kinds }
+             \cup { [kind |-> k, exports |-> << Exp(1, 1, "") >>, variant |-> "pkgmodreexp"] : k \in Kinds }
              \cup { [kind |-> "class", exports |-> e, variant |-> "exccls"] : e \in { << >>, << Exp(0, 1, "") >> } }
              \cup { [kind |-> k, exports |-> << Exp(a, 0, "") >>, variant |-> "stdlibname"] : k \in Kinds, a \in {0, 1, 3} }
              \cup { [kind |-> k, exports |-> << Exp(a, 1, ""), Exp(a, 2, "AliasA") >>, variant |-> "suffixalias"] : k \in Kinds, a \in {0, 1, 3} }
@@ -57,9 +60,9 @@ ExposedNames(s, at, t) ==
   { BoundName(s.exports[j]) : j \in { j \in 1..Len(s.exports) : s.exports[j].at = at /\ s.exports[j].tgt = t
                                        /\ \A m \in (j + 1)..Len(s.exports) : ~(s.exports[m].at = at /\ BoundName(s.exports[m]) = BoundName(s.exports[j])) } }
 PublicDecl(s, t) ==
-  IF s.variant \in {"distinct", "samemodule", "initdecl", "sharedbase", "suffixalias", "stdlibname", "exccls"} THEN TRUE
+  IF s.variant \in {"distinct", "samemodule", "initdecl", "sharedbase", "suffixalias", "stdlibname", "exccls", "pkgmodreexp"} THEN TRUE
   ELSE t = 1 /\ \E a \in Ats : Exposes(s, a, 1)       \* private modules: public only through the re-export, and only the re-exported declaration
-ModHomeV(s, t) == IF s.variant = "stdlibname" /\ t = 2 THEN <<"sub", "logging">> ELSE IF s.variant = "sharedbase" THEN <<"sub", "deep", "moda">> ELSE IF s.variant = "initdecl" /\ t = 1 THEN <<"sub", "deep">> ELSE IF s.variant = "samemodule" THEN (IF t = 1 THEN <<"sub", "deep", "modsame">> ELSE <<"sub", "modsame">>) ELSE ModHome(t)
+ModHomeV(s, t) == IF s.variant = "pkgmodreexp" THEN (IF t = 1 THEN <<"sub", "deep">> ELSE <<"sub">>) ELSE IF s.variant = "stdlibname" /\ t = 2 THEN <<"sub", "logging">> ELSE IF s.variant = "sharedbase" THEN <<"sub", "deep", "moda">> ELSE IF s.variant = "initdecl" /\ t = 1 THEN <<"sub", "deep">> ELSE IF s.variant = "samemodule" THEN (IF t = 1 THEN <<"sub", "deep", "modsame">> ELSE <<"sub", "modsame">>) ELSE ModHome(t)
 AllowedHomes(s, t) == { ModHomeV(s, t) } \cup { PkgPath(at) : at \in { a \in Ats : Exposes(s, a, t) } }
 AllowedNames(s, t) == { DName(t) } \cup UNION { ExposedNames(s, a, t) : a \in Ats }
 Targets(s) == {1} \cup { s.exports[j].tgt : j \in 1..Len(s.exports) }
@@ -86,7 +89,7 @@ Emit == pc = "done" => PrintT(ToJson(sc))
 Shape(s) == (IF Len(s.exports) = 0 THEN (IF s.variant = "initdecl" THEN "declared-in-package-file" ELSE "not-re-exported") ELSE IF Len(s.exports) = 1 THEN "single" ELSE
              IF s.exports[1].tgt = s.exports[2].tgt THEN (IF s.exports[1].at = s.exports[2].at THEN "same-package-twice" ELSE IF Len(PkgPath(s.exports[1].at)) = Len(PkgPath(s.exports[2].at)) THEN "two-packages-equal-depth" ELSE "two-depths")
              ELSE (IF BoundName(s.exports[1]) = BoundName(s.exports[2]) THEN "two-declarations-one-name" ELSE "two-declarations-one-package"))
-            \o ":" \o s.kind \o (IF s.variant = "samemodule" THEN ":same-module-name" ELSE IF s.variant = "suffixalias" THEN ":name-is-suffix-of-aliased-name" ELSE IF s.variant = "stdlibname" THEN ":module-named-like-imported-stdlib-module" ELSE IF s.variant = "exccls" THEN ":exception-class" ELSE "")
+            \o ":" \o s.kind \o (IF s.variant = "samemodule" THEN ":same-module-name" ELSE IF s.variant = "suffixalias" THEN ":name-is-suffix-of-aliased-name" ELSE IF s.variant = "stdlibname" THEN ":module-named-like-imported-stdlib-module" ELSE IF s.variant = "exccls" THEN ":exception-class" ELSE IF s.variant = "pkgmodreexp" THEN ":package-file-re-exported-as-module" ELSE "")
 (* members a class declaration must show, each exactly once (the private helper never) *)
 OwnMember(t) == IF t = 1 THEN "m_d1" ELSE "m_d2"
 ExpectedMembers(s, t) == IF s.kind # "class" THEN {} ELSE { OwnMember(t) } \cup (IF s.variant = "sharedbase" THEN { "m_shared" } ELSE {})
@@ -110,7 +113,7 @@ Judge(s, obs) ==
              ELSE
              (IF n = 0 THEN { [property |-> "C03", clause |-> "ExactlyOnce", sig |-> "u2:dropped:" \o Shape(s), expected |-> "1", observed |-> "0"] } ELSE {})
              \cup (IF n > 1 THEN { [property |-> "C03", clause |-> "ExactlyOnce", sig |-> "u2:duplicated:" \o Shape(s), expected |-> "1", observed |-> ToString(n)] } ELSE {})
-             \cup (IF s.variant \in {"distinct", "samemodule", "initdecl", "sharedbase", "suffixalias", "stdlibname", "exccls"} /\ n = 1 /\ d.occs[1].home \notin AllowedHomes(s, d.tgt) THEN { [property |-> "C03", clause |-> "Home", sig |-> "u2:" \o Shape(s), expected |-> ToString(AllowedHomes(s, d.tgt)), observed |-> ToString(d.occs[1].home)] } ELSE {})
-             \cup (IF s.variant \in {"distinct", "samemodule", "initdecl", "sharedbase", "suffixalias", "stdlibname", "exccls"} /\ n = 1 /\ d.occs[1].name \notin AllowedNames(s, d.tgt) THEN { [property |-> "C03", clause |-> "Name", sig |-> "u2:" \o Shape(s), expected |-> ToString(AllowedNames(s, d.tgt)), observed |-> d.occs[1].name] } ELSE {})
+             \cup (IF s.variant \in {"distinct", "samemodule", "initdecl", "sharedbase", "suffixalias", "stdlibname", "exccls", "pkgmodreexp"} /\ n = 1 /\ d.occs[1].home \notin AllowedHomes(s, d.tgt) THEN { [property |-> "C03", clause |-> "Home", sig |-> "u2:" \o Shape(s), expected |-> ToString(AllowedHomes(s, d.tgt)), observed |-> ToString(d.occs[1].home)] } ELSE {})
+             \cup (IF s.variant \in {"distinct", "samemodule", "initdecl", "sharedbase", "suffixalias", "stdlibname", "exccls", "pkgmodreexp"} /\ n = 1 /\ d.occs[1].name \notin AllowedNames(s, d.tgt) THEN { [property |-> "C03", clause |-> "Name", sig |-> "u2:" \o Shape(s), expected |-> ToString(AllowedNames(s, d.tgt)), observed |-> d.occs[1].name] } ELSE {})
         : j \in 1..Len(obs.decls) }
 =============================================================================
